@@ -57,7 +57,7 @@ enum YieldKind {
 enum FaultKind {
     F_SPURIOUS = 0, F_SIGNAL_CHOICE, F_TIMER_ADVANCE, F_THREAD_CREATE_FAIL, F_ALLOC_FAIL,
     F_SHORT_READ, F_SHORT_WRITE, F_EINTR, F_EIO, F_ENOSPC, F_EMFILE, F_TORN_INPUT,
-    F_FCLOSE_FAIL, F_DTYPE_UNKNOWN, F_CLOCK_JUMP, F_PREEMPT_MEM, F_COND_TIMEOUT, F_KIND_COUNT
+    F_FCLOSE_FAIL, F_DTYPE_UNKNOWN, F_CLOCK_JUMP, F_PREEMPT_MEM, F_COND_TIMEOUT, F_STORE_DELAYED, F_KIND_COUNT
 };
 extern const char* const fault_names[F_KIND_COUNT];
 
@@ -76,6 +76,7 @@ struct Config {
     int64_t tick_ns = 1000;     // simulated time per scheduling step
     int64_t epoch_real_ns = 1700000000ll * 1000000000ll;
     int64_t epoch_mono_ns = 1000;
+    double sb_drain_prob = 0.3; // per scheduling step while some store buffer is non-empty: drain one delayed store
     bool thread_create_faults = false;
     double thread_create_fail_prob = 0.0;
 };
@@ -91,6 +92,7 @@ struct Stats {
     int status = RS_OK;
     // probes
     uint64_t lock_contended = 0, cond_waits = 0, signals_no_waiter = 0, timeouts_fired = 0, unlock_not_owner = 0;
+    uint64_t sb_buffered = 0, sb_forwarded = 0, sb_drained_by_scheduler = 0;   // store-buffer model (atomic stores weaker than seq_cst)
 };
 
 // Called (with the baton) when the run cannot continue: deadlock or budget.
@@ -135,6 +137,8 @@ void advance_ns(int64_t d);
 // memory / atomic preemption points (called from instrumentation callbacks)
 void mem_event(const void* addr, int size, bool is_write);
 void atomic_event(const void* addr, int size, int kind);
+int atomic_store(void* addr, int size, uint64_t v, int order);            // 1: delayed in the store buffer, 0: caller stores now
+int atomic_load(const void* addr, int size, int order, uint64_t* out);    // 1: value forwarded from the own store buffer
 
 // optional access observer (race detector): called for every instrumented access while active
 typedef void (*AccessObserver)(int task, const void* addr, int size, bool is_write, bool is_atomic);
